@@ -27,6 +27,8 @@ abbrev Msg := Nat × Nat
 inductive WPc where
   /-- at the top-level `select { case <-done; case m := <-in }` -/
   | select
+  /-- `done` observed: `c.inflight.Lock()` — waits until no `submit` call is in progress -/
+  | barrier
   /-- inside `drainReady` (closing = reached through the `done` branch) -/
   | drain (closing : Bool)
   /-- about to `flush` -/
@@ -92,7 +94,8 @@ structure St where
 def St.init : St := {}
 
 inductive Act where
-  /-- thread `m.1` calls `submit(ctx, m)` (enabled when it has no call in progress) -/
+  /-- thread `m.1` calls `submit(ctx, m)` and takes the read lock `c.inflight.RLock()` (enabled when it has
+      no call in progress and the writer is not waiting for the write lock) -/
   | begin (m : Msg)
   /-- the context of thread `t`'s call in progress is cancelled / reaches its deadline -/
   | cancel (t : Nat)
@@ -149,11 +152,12 @@ def subStep (c : Cfg) (s : St) (t : Nat) (pick : Nat) : St :=
       | some .ok => accept s t p.msg
       | some r => finish s t p.msg r
 
-/-- `enqueueCoalescedFailure`: drop when shutting down or when the queue is full, else hand off -/
+/-- `enqueueCoalescedFailure`: hand the batch off to the fan-out queue; when that is not possible
+    (system shutting down, or queue full) dead-letter it inline (`publishCoalescedFailure`) -/
 def handler (c : Cfg) (s : St) (b : List Msg) : St :=
-  if s.sysDown then { s with dropped := s.dropped ++ [b] }
+  if s.sysDown then { s with dead := s.dead ++ b }
   else if s.fq.length < c.fqCap then { s with fq := s.fq ++ [b] }
-  else { s with dropped := s.dropped ++ [b] }
+  else { s with dead := s.dead ++ b }
 
 /-- the body of `flush` for a non-empty batch -/
 def flushBatch (c : Cfg) (s : St) (ok : Bool) : St :=
@@ -175,11 +179,14 @@ def wStep (c : Cfg) (s : St) (pick : Nat) (ok : Bool) : St :=
   | .select =>
     match s.done, s.chan with
     | false, [] => s                                   -- blocked
-    | true, [] => { s with wpc := .drain true }
+    | true, [] => { s with wpc := .barrier }
     | false, m :: rest => { s with chan := rest, batch := s.batch ++ [m], wpc := .drain false }
     | true, m :: rest =>
-      if pick % 2 = 0 then { s with wpc := .drain true }
+      if pick % 2 = 0 then { s with wpc := .barrier }
       else { s with chan := rest, batch := s.batch ++ [m], wpc := .drain false }
+  | .barrier =>
+    -- the write lock is granted only when no submit holds the read lock
+    if s.pend.isEmpty then { s with wpc := .drain true } else s
   | .drain closing =>
     if s.batch.length < c.maxBatch then
       match s.chan with
@@ -197,7 +204,7 @@ def fdrainStep (s : St) : St :=
   | b :: rest => { s with fq := rest, dead := s.dead ++ b }
 
 def step (c : Cfg) (s : St) : Act → St
-  | .begin m => if hasPend s m.1 then s
+  | .begin m => if hasPend s m.1 || s.wpc == .barrier then s   -- a pending write lock blocks new read locks
                 else { s with pend := s.pend ++ [{ msg := m, pc := .pre, ctxDone := false }], begun := s.begun ++ [m] }
   | .cancel t => { s with pend := setCtxDone s t }
   | .sub t pick => subStep c s t pick
